@@ -49,7 +49,8 @@ def _solve_one(task):
     if kind == 'reach':
         # the goal is literally `false` (a program point that must be unreachable): when it IS reachable the
         # quantified background theory keeps z3 from answering sat, so do not burn the long budgets on it
-        stages = [max(3000, timeout_ms // 5), max(3000, timeout_ms // 5)]
+        # ... but a valid one must not flip to `unknown` just because the machine is busy: one short, one full stage
+        stages = [max(3000, timeout_ms // 5), timeout_ms]
     for n, tmo in enumerate(stages):
         try:
             s, r = _z3_check(smt2, tmo, seed + n)
